@@ -315,15 +315,15 @@ macro_rules! wide_concrete {
         }
     };
 }
-// @h props=C06,C04,C03:t tier=quick family=T mem=6 timeout=1800 stubs=utils::select_in_word->contract role=rswide.concrete.zeros_then_ones
+// @h props=C06:t,C04:t,C03:t tier=thorough family=T optional=yes mem=40 timeout=3600 stubs=utils::select_in_word->contract role=rswide.concrete.zeros_then_ones
 // @bound RSWide::new on 700 zeros followed by 2400 ones (3100 bits = 7 lines: block counters above 2047), rank position and select index symbolic over the machine range
 // @funcs RSWide::new, RSWide::rank1, RSWide::rank0, RSWide::select1, RSWide::select0, RSWide::sub_block_rank, bitvector::DataLine::rank1, bitvector::DataLine::select1_unchecked
 wide_concrete!(c06_wide_concrete_z700_n3100, 7, 3100, 700, 12);
-// @h props=C06,C04 tier=quick family=T mem=6 timeout=1800 stubs=utils::select_in_word->contract role=rswide.concrete.two_superblocks
+// @h props=C06:t,C04:t tier=thorough family=T optional=yes mem=40 timeout=3600 stubs=utils::select_in_word->contract role=rswide.concrete.two_superblocks
 // @bound RSWide::new on 4100 zeros followed by 600 ones (4700 bits = 10 lines, two superblocks), queries symbolic
 // @funcs RSWide::new, RSWide::rank1, RSWide::select1, RSWide::select0
 wide_concrete!(c06_wide_concrete_z4100_n4700, 10, 4700, 4100, 14);
-// @h props=C06 tier=thorough family=T mem=5 timeout=3600 stubs=utils::select_in_word->contract role=rswide.concrete.hint_period
+// @h props=C06 tier=thorough family=T optional=yes mem=45 timeout=3600 stubs=utils::select_in_word->contract role=rswide.concrete.hint_period
 // @bound RSWide::new on the all-ones vector of 8704 bits (17 lines: more than 8192 ones, two hint periods), queries symbolic
 // @funcs RSWide::new, RSWide::rank1, RSWide::select1, RSWide::select0
 wide_concrete!(c06_wide_concrete_ones8704, 17, 8704, 0, 21);
@@ -366,3 +366,67 @@ fn c06_wide_false_twin() {
     assert!(blk == 0);
     core::mem::forget(rs);
 }
+
+// ------------------------------------------------------------------ rank on assembled states (layout given)
+
+macro_rules! wide_rank_assembled {
+    ($name:ident, $l:expr) => {
+        #[kani::proof]
+        #[kani::unwind(20)]
+        fn $name() {
+            // directory written from its definition for symbolic contents: what new_layout shows `new` establishes
+            let (words, n) = any_words::<$l>();
+            let mut meta = [0u128; 2];
+            let mut cum = [0usize; 3];
+            let mut l = 0;
+            while l < 2 {
+                let mut c = 0usize;
+                let mut w = 0;
+                while w < 8 {
+                    c += words[8 * l + w].count_ones() as usize;
+                    w += 1;
+                }
+                cum[l + 1] = cum[l] + if l < $l { c } else { 0 };
+                l += 1;
+            }
+            // one superblock: fields of blocks 1..7 (blocks past the end repeat the total), then the sentinel record
+            let mut m: u128 = 0;
+            let mut j = 1;
+            while j < 8 {
+                let v = cum[if j <= $l { j } else { $l }];
+                m |= (v as u128) << ((7 - j) * 12);
+                j += 1;
+            }
+            meta[0] = m;
+            meta[1] = (cum[$l] as u128) << 84;
+            let rs = assemble(&meta, &[0, 1], &[0, 1], mk_imm::<$l>(&words, n), n - cum[$l]);
+            let i: usize = kani::any();
+            let r = rs.rank1(i);
+            if i < n {
+                let r1 = rs.rank1(i + 1);
+                assert!(r.is_some() && r1.is_some());
+                assert!(r1.unwrap() == r.unwrap() + bit(&words, i) as usize);
+                assert!(rs.rank0(i) == Some(i - r.unwrap()));
+                assert!(unsafe { rs.rank1_unchecked(i) } == r.unwrap());
+                assert!(unsafe { rs.rank0_unchecked(i) } == i - r.unwrap());
+                assert!(rs.get(i) == Some(bit(&words, i)));
+            } else if i == n {
+                assert!(r == Some(cum[$l]));
+                assert!(unsafe { rs.rank1_unchecked(i) } == cum[$l]);
+                assert!(rs.n_ones() == cum[$l] && rs.n_zeros() == n - cum[$l]);
+            } else {
+                assert!(r.is_none() && rs.rank0(i).is_none() && rs.get(i).is_none());
+            }
+            assert!(rs.rank1(0) == Some(0));
+            assert!(unsafe { rs.rank1_unchecked(0) } == 0);
+            kani::cover!(i.wrapping_add(1) == n, "last position");
+            kani::cover!(i == usize::MAX, "largest position");
+            kani::cover!(i == 512 && $l == 2, "first position of the second block");
+            core::mem::forget(rs);
+        }
+    };
+}
+// @h props=C06,C04,C10 tier=quick family=A prof=AB mem=6 timeout=1800 role=rswide.rank.assembled
+// @bound RSWide assembled over any bit vector of 513..=1024 bits (two blocks) with the directory written from its definition: rank1 / rank0 / get laws for every position of the machine range, checked and unchecked
+// @funcs RSWide::rank1, RSWide::rank1_unchecked, RSWide::rank0, RSWide::rank0_unchecked, RSWide::get, RSWide::sub_block_rank, bitvector::DataLine::rank1
+wide_rank_assembled!(c06_wide_rank_assembled_l2, 2);
